@@ -54,6 +54,13 @@ theorem c16_retransmission : cliRetransBaseNs = 700 * 1000000 ∧ cliRetransBarr
 theorem c14_min_lease : cliMinLeaseNs = 60 * 1000000000 := by decide
 theorem c15_limiter : cliLimiterRate = 1 ∧ cliLimiterBurst = 10 := by decide
 
+/-- Which socket discipline each socket-opening function follows (`Model/Resources.lean`), and that
+the spawned senders receive a context their caller cancels on return. -/
+theorem c19_socket_disciplines :
+    discCatchARPReply = "closerOnCancel" ∧ discSendARPPing = "deferClose" ∧ discServerRun = "closerOnCancel" ∧
+    discSendUnicast = "closeAfterUse" ∧ discSendMessage = "deferClose" ∧ discCatchReply = "closerOnCancel" ∧
+    pingCancelsOnReturn = true ∧ advanceStateCancelsOnReturn = true := by decide
+
 /-! ### sanitising, resolv.conf -/
 theorem c17_regexes :
     reBadChars = "[^a-zA-Z0-9,\\.-]" ∧ reGoodChars = "^[a-zA-Z0-9\\.-]+$" ∧ reGoodNums = "^[0-9\\.]+$" ∧
